@@ -230,7 +230,7 @@ class TealBlock(ABC):
                             outgoingBlock.incoming.append(prev)
 
                     if block is start:
-                        start = block
+                        start = outgoingBlock
 
         return start
 
